@@ -102,6 +102,51 @@ def rule_ab(ck, R):
                if not bad_b else '; '.join(sorted(set(bad_b))[:3]))
 
 
+def rule_config(ck, R):
+    """C06.b (configuration half): the setters store what the dispatcher later reads.  regp_process selects the
+    accessor by memory.type and calls memory.access.m8/m16.read/write; regp_recv / send_memory select the framing by
+    ep.type and use ep.source / ep.sink; buffers come from alloc.  A setter that drops one of its arguments leaves the
+    previous (default: void memory, empty source, null sink) object in place and the request is answered from that."""
+    E = R.E
+    eng = R.engine(set())
+    table = {
+        'regp_use_memory8': {'p->memory.type': C(E['RP_MEMTYPE_8']), 'p->memory.access.m8.read': ('v', 'read'), 'p->memory.access.m8.write': ('v', 'write')},
+        'regp_use_memory16': {'p->memory.type': C(E['RP_MEMTYPE_16']), 'p->memory.access.m16.read': ('v', 'read'), 'p->memory.access.m16.write': ('v', 'write')},
+        'regp_use_channel': {'p->ep.type': ('v', 'type'), 'p->ep.source': ('v', 'source'), 'p->ep.sink': ('v', 'sink')},
+        'regp_use_allocator': {'p->alloc': ('v', 'alloc')},
+    }
+    for fn, want in sorted(table.items()):
+        if R.u.fn(fn) is None:
+            if fn == 'regp_use_memory8':
+                continue                      # built only WITH_UINT8_T
+            ck.broken('C06.b', fn + ':config', '', 'function missing')
+            continue
+        ps = R.paths(fn, 'C06.b', eng)
+        if ps is None:
+            continue
+        bad = None
+        for p in ps:
+            got = {}
+            for e in p.stores():
+                v = e.args[0]
+                got[fmt(e.name)] = v
+            for k, v in want.items():
+                g = got.get(k)
+                if g is None and v[0] == 'v':
+                    # whole-struct assignment shows up as a struct value or as member stores
+                    g = sym.mem_read(p.mem, None) if False else None
+                    for kk, vv in got.items():
+                        if kk == k or kk.startswith(k + '.'):
+                            g = vv if kk == k else v
+                if g is None or (strip_cast(g) != v and not (g[0] == 'struct' and g[1] == v)):
+                    bad = '%s is %s after the call, expected %s' % (k, 'left unchanged' if g is None else 'set to ' + fmt(g), fmt(v))
+            extra = [k for k in got if not any(k == w or k.startswith(w + '.') for w in want)]
+            if extra:
+                bad = bad or 'also modifies %s' % extra[0]
+        ck.verdict(bad is None, 'C06.b', fn + ':config', R.where(fn),
+                   'stores %s' % ', '.join(sorted(want)) if bad is None else bad)
+
+
 def rule_c(ck, R):
     E = R.E
     ps = R.paths('regp_process', 'C06.c')
@@ -113,6 +158,17 @@ def rule_c(ck, R):
     FS = R.so.get('RPFrame', 64)
     alloc = L(('f', ('f', P, 'alloc'), 'blocksize'))
     seen = {}
+    uninit = None
+    for p in ps:
+        # the reply is selected by `ba.status`; on every path that value must come from a backend call or from an
+        # assignment of a constant, never from the unassigned local
+        for c in p.cond_terms():
+            for t in sym.subterms(c):
+                if t[0] == 'f' and t[2] == 'status' and t[1][0] == '&' and t[1][1][0] == 'v' and not reply_calls(p) == []:
+                    uninit = uninit or ('the reply on path {%s} is selected by %s, which no statement on that path has assigned: '
+                                        'the answer to the request depends on stack garbage' % ('; '.join(fmt(x) for x in p.cond_terms()[-4:-1]), fmt(t)))
+    ck.verdict(uninit is None, 'C06.c', 'regp_process:status-defined', where,
+               'on every path the status that selects the reply comes from the backend or is an assigned constant' if uninit is None else uninit)
     for p in ps:
         be = backend_calls(p)
         st = None
@@ -229,6 +285,7 @@ def run(ck):
     ck.not_decided += ['behaviour of the memory backend', 'wire octets of the reply (C08)']
     R = Regp(ck)
     rule_ab(ck, R)
+    rule_config(ck, R)
     rule_c(ck, R)
     # d: echo rules live in c08.rule_h / rule_fg; re-evaluate under this property
     from . import c08
